@@ -178,6 +178,11 @@ pub fn check_against_model(a: &Analysis, o: &Outcome) -> CheckResult {
 }
 
 pub fn check_provider_calls(a: &Analysis, o: &Outcome) -> CheckResult {
+    // tower contract: `call` only after `poll_ready` has returned Ready (a provider that needs the
+    // readiness handshake -- a pool, a rate limiter -- fails or panics otherwise, refusing valid requests)
+    if o.prov_log.iter().any(|e| matches!(e, ProvEvent::Call { after_ready: false, .. })) {
+        return Err(Failure::new("provider-called-before-ready", format!("provider invoked without a preceding Ready from poll_ready: {:?}", o.prov_log)));
+    }
     if let Some(n) = a.provider_calls {
         if o.calls() != n as usize {
             return Err(Failure::new(
